@@ -8,6 +8,8 @@ Operations of a thread program (small tuples):
     ("E", clear, mode)       console.export_text(clear=…) (mode "t"), export_text(clear=…, styles=True) ("s"), export_html(clear=…) ("h")
     ("U", lines, refresh)    Live.update(renderable yielding `lines`, refresh=…)
     ("R",) refresh   ("S",) start   ("X",) stop   ("V", id, n) Progress.advance
+    ("W", stream, text)      sys.stdout.write(text) ("o") / sys.stderr.write(text) ("e"): one write() call on whatever object is installed there
+                             (the FileProxy of the running display); a text with k newlines completes k lines
     ("G", npre)              harness barrier: wait until thread 0 has finished its first `npre` operations
     ("J",)                   harness barrier: wait until every other thread has finished
 The barriers restrict which schedules the *harness* explores; the model has no barrier (it allows more).
@@ -26,7 +28,9 @@ from sched import Deadlock, LockProxy, Sched, TracedList, YFile
 
 KINDS = {"none": 0, "live": 1, "progress": 2}
 OVERFLOWS = {"crop": 0, "ellipsis": 1, "visible": 2}
-LINE_FILES = ("rich/console.py", "rich/live.py", "rich/live_render.py", "rich/progress.py", "rich/file_proxy.py")
+LINE_FILES = ("rich/console.py", "rich/live.py", "rich/live_render.py", "rich/progress.py", "rich/file_proxy.py",
+              "rich/segment.py", "rich/control.py", "rich/ansi.py")   # every rich module with state on the path of the thread programs
+PROXY_KINDS = ("qr", "q+", "qd", "qx")   # accesses to a FileProxy's pending-text list: not events of Model/Conc (replayed on Model/ConcProxy)
 
 
 class Scn:
@@ -74,8 +78,21 @@ class Scn:
             return f"V{op[1]};{op[2]}"
         raise ValueError(op)
 
-    def enc_progs(self):
-        return "/".join("|".join(self.enc_op(op) for op in p if op[0] not in ("G", "J")) for p in self.progs)
+    def enc_progs(self, proxy_prints=None):
+        """`proxy_prints[(tid, i)]` = the console.print calls (their lines) the `W` operation i of thread tid made in the real run:
+        the model is told which lines the proxy handed to the console (they depend on what was pending), one `W<lines>` per call."""
+        out = []
+        for tid, p in enumerate(self.progs):
+            ops = []
+            for i, op in enumerate(p):
+                if op[0] in ("G", "J"):
+                    continue
+                if op[0] == "W":
+                    ops += ["W" + enc_str_list(self.user_lines(ls, "str")) for ls in (proxy_prints or {}).get((tid, i), [])]
+                else:
+                    ops.append(self.enc_op(op))
+            out.append("|".join(ops))
+        return "/".join(out)
 
 
 def _height_of(text, per_line):
@@ -151,6 +168,86 @@ def trace_live_render(lr, sched):
     return lr
 
 
+class TracedBuf:
+    """Stand-in for the pending-text list of a FileProxy (`self.__buffer`, a list of str): reading it (`"".join(buffer)`,
+    truth test), `append`, `del buffer[:]` are yield points + events.  Not a list subclass on purpose: `str.join` reads a list
+    (subclass) without calling `__iter__`."""
+
+    def __init__(self, sched, stream, items=()):
+        self.sched, self.stream, self.items = sched, stream, list(items)
+
+    def _ev(self, kind, payload):
+        self.sched.log(kind, (self.stream, payload))
+
+    def __iter__(self):
+        self.sched.sync("qr")
+        snap = list(self.items)
+        self._ev("qr", "".join(map(str, snap)))
+        return iter(snap)
+
+    def __len__(self):
+        return len(self.items)
+
+    def __bool__(self):
+        return bool(self.items)
+
+    def __getitem__(self, k):
+        self.sched.sync("qr")
+        self._ev("qr", "".join(map(str, self.items)))
+        return self.items[k]
+
+    def append(self, x):
+        self.sched.sync("q+")
+        self.items.append(x)
+        self._ev("q+", str(x))
+
+    def extend(self, xs):
+        for x in list(xs):
+            self.append(x)
+
+    def __iadd__(self, xs):
+        self.extend(xs)
+        return self
+
+    def __delitem__(self, k):
+        self.sched.sync("qd")
+        del self.items[k]
+        self._ev("qd", None)
+
+    def clear(self):
+        self.__delitem__(slice(None))
+
+    def __setitem__(self, k, v):
+        self.sched.sync("qx")
+        self.items[k] = v
+        self._ev("qx", None)
+
+    def pop(self, *a):
+        self.sched.sync("qx")
+        r = self.items.pop(*a)
+        self._ev("qx", None)
+        return r
+
+    def copy(self):
+        return list(iter(self))
+
+
+def trace_proxy(stream_obj, sched, tag, keep):
+    """Swap the pending-text list of a FileProxy for a TracedBuf (when the proxy has one: otherwise only line mode sees inside)."""
+    try:
+        from rich.file_proxy import FileProxy
+    except BaseException:  # noqa: BLE001
+        return
+    if not isinstance(stream_obj, FileProxy) or any(p is stream_obj for _, p, _b in keep):
+        return
+    d = getattr(stream_obj, "__dict__", {})
+    for name, v in list(d.items()):
+        if name.endswith("buffer") and type(v) is list:
+            d[name] = TracedBuf(sched, tag, v)
+            keep.append((tag, stream_obj, d[name]))
+            return
+
+
 class Result:
     pass
 
@@ -183,6 +280,19 @@ def run_real(scn, chooser, line_mode=False):
         trace_live_render(disp._live_render, sched)
 
     n = len(scn.progs)
+    proxies = []          # (stream tag, FileProxy) whose pending-text list is traced
+    proxy_prints = {}     # (tid, op index) -> [lines of every console.print call made inside that `W` operation]
+    real_print = console.print
+
+    def print_spy(*objs, **kw):
+        cur = getattr(sched.tl, "wop", None)
+        if cur is not None:
+            text = "".join(getattr(o, "plain", None) if isinstance(getattr(o, "plain", None), str) else str(o) for o in objs)
+            proxy_prints.setdefault(cur, []).append(text.split("\n"))
+        return real_print(*objs, **kw)
+
+    if any(op[0] == "W" for p in scn.progs for op in p):
+        console.print = print_spy
     done_ops = [0] * n
     captures = [[] for _ in range(n)]
     exports = [[] for _ in range(n)]   # per thread: (clear, mode, plain text of what the export returned)
@@ -215,7 +325,17 @@ def run_real(scn, chooser, line_mode=False):
         elif k == "R":
             disp.refresh()
         elif k == "S":
-            disp.start()
+            try:
+                disp.start()
+            finally:
+                trace_proxy(sys.stdout, sched, "o", proxies)
+                trace_proxy(sys.stderr, sched, "e", proxies)
+        elif k == "W":
+            sched.tl.wop = (sched.current(), sched.tl.opi)
+            try:
+                (sys.stdout if op[1] == "o" else sys.stderr).write(op[2])
+            finally:
+                sched.tl.wop = None
         elif k == "X":
             disp.stop()
         elif k == "V":
@@ -230,7 +350,8 @@ def run_real(scn, chooser, line_mode=False):
 
     def worker(tid):
         def go():
-            for op in scn.progs[tid]:
+            for i, op in enumerate(scn.progs[tid]):
+                sched.tl.opi = i
                 apply(op)
                 if op[0] not in ("G", "J"):
                     done_ops[tid] += 1
@@ -273,6 +394,9 @@ def run_real(scn, chooser, line_mode=False):
     res.lock_errors = clock.errors + rlock.errors + llock.errors
     res.exc = dict(sched.exc)
     res.captures = captures
+    res.proxy_prints = proxy_prints
+    res.proxy_pending = {tag: "".join(map(str, b.items)) for tag, _p, b in proxies}
+    res.proxy_traced = len(proxies)
     res.exports = exports
     res.done_ops = done_ops
     res.console = console
@@ -323,9 +447,14 @@ EVENT_CODES = {"acqL": "aL", "relL": "rL", "acqC": "aC", "relC": "rC", "acqR": "
                "ce": "ce", "cr": "cr", "cd": "cd", "pos": "ps", "rst": "rs", "rr": "rr", "ws": "ws", "setr": "sr", "w": "w"}
 
 
+def console_events(events):
+    """The events of Model/Conc: everything but the accesses to the proxies' pending text."""
+    return [e for e in events if e[1] not in PROXY_KINDS]
+
+
 def enc_events(events):
     """`tid:code` list sent to the model (the schedule at the granularity of the shared accesses)."""
-    return ",".join(f"{t}:{EVENT_CODES.get(k, '??' + k)}" for t, k, _ in events)
+    return ",".join(f"{t}:{EVENT_CODES.get(k, '??' + k)}" for t, k, _ in console_events(events))
 
 
 def enc_shape(v):
@@ -348,7 +477,7 @@ def enc_payload(scn, kind, p):
 
 
 def enc_obs(scn, events):
-    return ";".join(enc_payload(scn, k, p) for _, k, p in events)
+    return ";".join(enc_payload(scn, k, p) for _, k, p in console_events(events))
 
 
 def enc_final(scn, res):
